@@ -200,6 +200,19 @@ T = [
      "                err.map_or_else(|| Ok(replaced), Err)", "                drop(err);\n                Ok(replaced)"),
     ("c16_position_without_row_offset", "C16/R4", "src/feature.rs",
      "            expanded.position.line += id + 2;", "            expanded.position.line += 2;\n            let _ = id;"),
+    # ---- C19
+    ("c19_literal_regex_unanchored_end", "C19/R2", "codegen/src/attribute.rs",
+     "                    &format!(\"^{}$\", regex::escape(&l.value())),", "                    &format!(\"^{}\", regex::escape(&l.value())),"),
+    ("c19_literal_not_escaped", "C19/R2", "codegen/src/attribute.rs",
+     "                    &format!(\"^{}$\", regex::escape(&l.value())),", "                    &format!(\"^{}$\", l.value()),"),
+    ("c19_collection_when_into_given", "C19/R1", "src/lib.rs",
+     "            out = out.when(Some(loc), regex(), fun);", "            out = out.given(Some(loc), regex(), fun);"),
+    ("c19_typed_args_include_whole_match", "C19/R2", "codegen/src/attribute.rs",
+     "                    let mut __cucumber_iter = __cucumber_ctx\n                        .matches.iter()\n                        .skip(1);", "                    let mut __cucumber_iter = __cucumber_ctx\n                        .matches.iter()\n                        .skip(0);"),
+    ("c19_result_errors_ignored", "C19/R2", "codegen/src/attribute.rs",
+     "        let unwrapping = (!self.returns_unit())\n            .then(|| quote! { .unwrap_or_else(|e| panic!(\"{}\", e)) });", "        let unwrapping = (!self.returns_unit())\n            .then(|| quote! { .unwrap_or_default() });"),
+    ("c19_then_registered_as_when", "C19/R2", "codegen/src/attribute.rs",
+     "        format_ident!(\"{}\", to_pascal_case(self.attr_name))", "        format_ident!(\n            \"{}\",\n            to_pascal_case(if self.attr_name == \"then\" {\n                \"when\"\n            } else {\n                self.attr_name\n            })\n        )"),
     # ---- C10
     ("c10_world_new_outside_catch", "C10/R1", B,
      "                match AssertUnwindSafe(async { W::new().await })\n                    .catch_unwind()\n                    .then_yield()\n                    .await\n                {\n                    Ok(Ok(w)) => w,",
